@@ -209,9 +209,22 @@ def redefinition_family(ctx):
     return out
 
 
+def nested_recursion_family():
+    """A call that closes a cycle from inside an Alarm / Watch / Block nested in the macro body (directly, and through a
+    second macro); the plain corpus has no Watch/Alarm."""
+    M, CA, CB = ("M", ()), ("CA", ()), ("CB", ())
+    out = []
+    for inner in ("Al", "Wa", "K"):
+        for lead in ((), (M,)):
+            out.append((("MA", lead + ((inner, (CA,)),)), CA))
+            out.append((("MA", lead + ((inner, (CB,)),)), ("MB", (CA,)), CA))
+            out.append((("MA", lead + ((inner, (M, CA)),)), M, CA))
+    return out
+
+
 def run(ctx):
     n = 4 if ctx.quick else 5
-    forests = [f for f in pgen.programs(KINDS, n, depth=2) if valid(f)] + redefinition_family(ctx)
+    forests = [f for f in pgen.programs(KINDS, n, depth=2) if valid(f)] + redefinition_family(ctx) + nested_recursion_family()
     ctx.prove_deterministic(lambda f: check_program(f)[0], [forests[0], forests[len(forests) // 2]], k=2)
     results = ctx.pmap(check_program, forests)
     execs = nontrivial = edits = 0
